@@ -9,6 +9,13 @@ void aws_raise_error_private(int err) { g_last_error = err; g_raise_count++; }
 #include "source/uri.c"
 #undef append_canonicalized_character
 
+/* replay variables (DESIGN 3.5): plain copies of the harness inputs of the bounded/complete units below, read back from the
+ * counterexample trace by the driver and handed to replay/uri_replay.c; they take no part in any obligation */
+size_t r_n, r_pre;
+uint64_t r_in;
+uint8_t r_v;
+bool r_path;
+
 #define GHOSTS() do { GHOST_RESET(); g_on = true; g_k = nondet_size_t(); g_old = nondet_u8(); g_j = nondet_size_t(); g_src = nondet_u8(); } while (0)
 
 void h_to_upper_hex(void) { GHOST_RESET();
@@ -59,6 +66,7 @@ void h_char_roundtrip(void) {
     GHOST_RESET(); g_e.cnt = 0; g_e.i = nondet_size_t();
     uint8_t v = nondet_u8();
     bool path = nondet_bool();
+    r_v = v; r_path = path;
     uint8_t enc[3];
     struct aws_byte_buf b = {.buffer = enc, .len = 0, .capacity = 3, .allocator = &s_unused_allocator};
     if (path) s_unchecked_append_canonicalized_path_character(&b, v); else s_raw_append_canonicalized_param_character(&b, v);
@@ -93,6 +101,8 @@ void h_encode_decode_bounded(void) {
     for (size_t i = 0; i < ENC_PRE; i++) out0[i] = out[i];
     struct aws_byte_buf b = {.buffer = out, .len = pre, .capacity = ENC_PRE + 3 * ENC_N, .allocator = &s_unused_allocator};
     struct aws_byte_cursor c = {.ptr = in, .len = n}; /* the NULL/0 view is exercised natively (native_roundtrips) */
+    r_n = n; r_pre = pre; r_path = path;
+    r_in = (uint64_t)in[0] | ((uint64_t)in[1] << 8) | ((uint64_t)in[2] << 16) | ((uint64_t)in[3] << 24);
     int r = path ? aws_byte_buf_append_encoding_uri_path(&b, &c) : aws_byte_buf_append_encoding_uri_param(&b, &c);
     __CPROVER_assert(r == AWS_OP_SUCCESS && b.buffer == out && b.capacity == ENC_PRE + 3 * ENC_N, "encoder succeeds in place when 3n bytes are free");
     /* specification: byte by byte */
@@ -145,6 +155,8 @@ void h_decode_bounded(void) {
     uint8_t o0 = out[0], o1 = out[1];
     struct aws_byte_buf o = {.buffer = out, .len = pre, .capacity = 2 + DEC_N, .allocator = &s_unused_allocator};
     struct aws_byte_cursor c = {.ptr = in, .len = n};
+    r_n = n; r_pre = pre;
+    r_in = (uint64_t)in[0] | ((uint64_t)in[1] << 8) | ((uint64_t)in[2] << 16) | ((uint64_t)in[3] << 24) | ((uint64_t)in[4] << 32) | ((uint64_t)in[5] << 40);
     int r = aws_byte_buf_append_decoding_uri(&o, &c);
     /* reference: RFC 3986 2.1 pct-encoded = "%" HEXDIG HEXDIG; everything else is literal */
     uint8_t ref[DEC_N]; size_t m = 0; bool ok = true;
